@@ -13,6 +13,7 @@ from rv import common as C
 from rv import detmodel as D
 
 N_CASES = {'quick': 3200, 'thorough': 60000}
+CASE_TIMEOUT = 300
 TIMEOUT = {'quick': 1500, 'thorough': 6 * 3600}
 ANCHORS = ['lp:def_sol', 'ort_solver:solve', 'grb_solver:solve', 'eco_solver:solve',
            'ro:Model.get', 'dro:Model.get', 'lp:Vars.get']
@@ -34,6 +35,8 @@ def gen_case(rng, idx, tier):
     if r < 0.25:
         out = ('infeasible', 'unbounded')
         return SRC.gen(rng, tier, kinds=['lp', 'milp'], outcomes=out)
+    if r < 0.262:
+        return SRC.gen(rng, tier, kinds=['msplit'])
     return SRC.gen(rng, tier)
 
 
@@ -50,6 +53,10 @@ def run_case(spec, ctx):
         return {'status': 'skip', 'reason': 'rsome raised at build: %s' % type(e).__name__}
     cls = C.cone_class(f)
     names = C.solvers_for(f)
+    if src['kind'] == 'msplit':
+        # the only integer programs that also go to ECOS' branch and bound (attributed through
+        # the direct call like every other discrepancy)
+        names = ['def', 'ort', 'grb', 'eco']
     outcome = src['spec'].get('outcome', 'optimal')
     sols = {}
     detail = []
@@ -69,7 +76,7 @@ def run_case(spec, ctx):
             sols[s] = ('none', None)
             continue
         ok = sol.x is not None and not np.isnan(sol.objval)
-        if s == 'eco' and ok and 'Optimal' not in str(sol.status):
+        if s == 'eco' and ok and 'Optimal' not in str(sol.status) and 'I' not in cls:
             ctx.count('ecos_inaccurate_status')
             continue
         if s == 'eco' and not ok and 'infeasible' not in str(sol.status).lower() \
